@@ -28,6 +28,18 @@ Theorem C12_full : C12_full_statement.
 Proof. exact c12_main. Qed.
 Print Assumptions C12_full.
 
+(* lifted to whole messages: the message is accepted iff every property's rules hold *)
+Theorem C12_message :
+  forall (re_match : str -> str -> bool),
+    (forall s, re_match Id62Gen.pattern_string s = id62_shape s) ->
+    forall env ds idx os fvs,
+      wf_env env = true ->
+      write_props_from env idx ds = Ok os ->
+      typed_obj ds fvs = true ->
+      validate_obj re_match (defined_numbers env) os fvs = rule_obj re_match env ds fvs.
+Proof. exact c12_object. Qed.
+Print Assumptions C12_message.
+
 (* what makes the full statement true: the compiler rejects the two kinds of
    integer rules whose compiled form would mean something else (both were
    accepted before the fix recorded in KNOWN_FINDINGS.txt) *)
